@@ -59,6 +59,7 @@ type ScriptCfg struct {
 	BeforeRun    func(*InitSide)
 	Shape        func([]byte) []seg
 	Opts         func() *session.Opts
+	NewCS        func() session.CounterStorage
 }
 
 //go:norace
@@ -74,7 +75,7 @@ func (w *World) NewScript(cfg ScriptCfg) *Script {
 	if cfg.Role == "acceptor" {
 		sc.PeerID, sc.LibID = "PEER", "LIB"
 		sc.Acc = w.StartAcceptor(AccCfg{HandlerBuf: cfg.HandlerBuf, WriteTimeout: cfg.WriteTimeout, HBMin: cfg.HBMin, HBMax: cfg.HBMax,
-			CloseTimeout: cfg.CloseTimeout, Approve: cfg.Approve, Store: sc.Store, OnSession: cfg.OnAccSession, Opts: cfg.Opts})
+			CloseTimeout: cfg.CloseTimeout, Approve: cfg.Approve, Store: sc.Store, OnSession: cfg.OnAccSession, Opts: cfg.Opts, NewCS: cfg.NewCS})
 		cli, srv := sc.Acc.L.Dial("script", -1, -1)
 		sc.LibEnd = srv
 		sc.P = NewPeer(w, cli, "peer")
